@@ -8,6 +8,6 @@ require (
 	golang.org/x/text v0.16.0
 )
 
-require golang.org/x/image v0.18.0 // indirect
+require golang.org/x/image v0.18.0
 
 replace github.com/tsawler/tabula => /repo
